@@ -3,7 +3,7 @@
 // @@fs: core
 // @@timeout: 900
 use crate::refmodel::*;
-use domain::base::name::{Name, NameBuilder, RelativeName, ToName, ToRelativeName};
+use domain::base::name::{Name, NameBuilder, RelativeName, ToLabelIter, ToName, ToRelativeName};
 
 const CAP: usize = 272;
 type B = FixedBuf<CAP>;
@@ -497,4 +497,40 @@ fn c03_strip_suffix_respects_label_boundaries() {
     assert!(valid_relative_k(two.as_slice(), 3));
     assert!(two.as_slice().len() == if r2.is_ok() { 2 } else { 4 });
     kani::cover!(r2.is_ok(), "real suffix stripped");
+}
+
+// @tier: experimental
+// @funcs: RelativeName::chain, Chain::new, RelativeName::from_slice, Name::from_slice, ToLabelIter::compose_len
+// @bound: a relative name of three labels with symbolic lengths 1..=63 (arbitrary content) chained with an absolute name of one label of symbolic length 1..=63: the chain is refused exactly when the combined name would exceed 255 octets, and an accepted chain reports the combined length
+// @outside: chains of chains; UncertainName chains
+#[kani::proof]
+#[kani::unwind(7)]
+fn c03_chain_enforces_the_255_limit() {
+    let mut rbuf: [u8; 192] = kani::any();
+    let mut pos = 0usize;
+    let mut i = 0;
+    while i < 3 {
+        let l: usize = kani::any();
+        kani::assume(l >= 1 && l <= 63);
+        rbuf[pos] = l as u8;
+        pos += l + 1;
+        i += 1;
+    }
+    let rel = RelativeName::from_slice(&rbuf[..pos]).unwrap();
+    let mut abuf: [u8; 65] = kani::any();
+    let al: usize = kani::any();
+    kani::assume(al >= 1 && al <= 63);
+    abuf[0] = al as u8;
+    abuf[al + 1] = 0;
+    let abs = Name::from_slice(&abuf[..al + 2]).unwrap();
+    let total = pos + al + 2;
+    match rel.chain(abs) {
+        Ok(c) => {
+            assert!(total <= 255);
+            assert!(c.compose_len() as usize == total);
+        }
+        Err(_) => assert!(total > 255),
+    }
+    kani::cover!(total == 255, "maximal chained name");
+    kani::cover!(total == 256, "one octet too long");
 }
